@@ -162,7 +162,7 @@ def main():
             if meta.get("detect_tier"):
                 rows[name]["tier"] = meta["detect_tier"]
             print(name, json.dumps(rows[name]), flush=True)
-        mpath = os.path.join(root, "MATRIX.json")
+        mpath = os.environ.get("MATRIX_OUT") or os.path.join(root, "MATRIX.json")
         allrows = json.load(open(mpath)) if (only and os.path.exists(mpath)) else {}
         allrows.update(rows)
         json.dump(allrows, open(mpath, "w"), indent=1, sort_keys=True)
